@@ -32,6 +32,20 @@ Theorem C05_frame : forall genv ms provs self ms' provs' self',
 Proof. exact module_env_frame. Qed.
 Print Assumptions C05_frame.
 
+(* "its import closure" is exactly: the selected modules reachable from X through active imports (uses / depends,
+   providers included) — so M's exported env takes part in X's environment iff X uses or depends on M, directly or
+   transitively (proofs/ImportsClosure.v, ImportsBuild.v; import cycles included) *)
+Require Laze.proofs.ImportsClosure.
+Require Import Laze.model.Load Laze.proofs.ImportsBuild.
+Theorem C05_exports_reach_exactly_the_importers :
+  forall t pf bd b, load t pf bd = Ok b ->
+  forall builder bname binary cli_selects disabled0 rst, In binary (all_modules b) ->
+  resolve_build b builder bname binary cli_selects disabled0 = Ok rst ->
+  forall X M, In X (sel rst) ->
+  (In M (imports_postorder (sel rst) (provby rst) X) <-> ImportsClosure.reach (sel rst) (provby rst) X M).
+Proof. exact build_imports_are_reachable. Qed.
+Print Assumptions C05_exports_reach_exactly_the_importers.
+
 (* --- statements --- *)
 (* Two runs of the module loop of one (builder, app) — before and after an edit — started with the same table
    [dirs] of download directories (C05_same_download_table: related build orders have the same), whose build orders
